@@ -88,7 +88,7 @@ def run(chk: Check) -> None:
             bs = cf.class_const(c, "bytesize")
             chk.ob("R08.1", "wire[%s]:width" % head, bs == {"float": 4, "double": 8}[head], c.loc(),
                    "%s reads %r bytes" % (head, bs), 1)
-    chk.floor("R08.1", "wire types with a codec", n, 20)
+    chk.floor("R08.1", "wire types with a codec", n, 14)
     # the count prefix itself is the uint64 codec
     u = chk.repo.cls("Uint64Codec")
     ev, _, _ = cf.norm_shape(u, "encode", concrete=True)
@@ -135,8 +135,8 @@ def _anchors(chk: Check, cf) -> None:
     for p in sorted(jdir.glob("*.java")):
         txt = p.read_text(errors="replace")
         java += re.findall(r'getTypeName\(\)\s*\{\s*return\s*"([^"]+)"', txt)
-    chk.floor("R08.3", "C++ type_name literals", len(cpp), 13)
-    chk.floor("R08.3", "Java getTypeName literals", len(java), 9)
+    chk.floor("R08.3", "C++ type_name literals", len(cpp), 9)
+    chk.floor("R08.3", "Java getTypeName literals", len(java), 6)
     keys = set(cf.table)
     for src, names in (("C++", cpp), ("Java", java)):
         for nm in sorted(set(names)):
